@@ -203,7 +203,7 @@ Inductive outcome (hooks : list hook) (orc : oracle) (e : evt) (b : body) (s : e
     enter_stage hooks orc d (set_st d s2) = (s4, tE, eE, false) ->
     after_stage hooks orc e (nonnil eE) s4 = (s5, tA, eA, false) ->
     outcome hooks orc e b s d s5 (tB ++ tL ++ body_trace e true ++ tE ++ tA)
-            (match eA with _ :: _ => RHook eA | [] => match eE with _ :: _ => RHook eE | [] => ROk end end).
+            (match eE ++ eA with _ :: _ => RHook (eE ++ eA) | [] => ROk end).
 
 Lemma transition_outcome hooks orc e b s s' t r d :
   transition hooks orc e b s = (s', t, r) -> dst_of e (e_st s) = Some d ->
@@ -248,12 +248,12 @@ Lemma stage_early_l e src t : Forall (stage_ev (MLeave src)) t -> Forall (early_
 Proof. intro H. eapply Forall_impl; [|exact H]. intros x; destruct x; cbn; auto. Qed.
 
 Lemma done_result eA eE l :
-  (match eA with _ :: _ => RHook eA | [] => match eE with _ :: _ => RHook eE | [] => ROk end end) = RHook l ->
-  (forall pe : perr, In pe l -> In pe (eA ++ eE)) /\ nonnil eE || nonnil eA = true.
+  (match eE ++ eA with _ :: _ => RHook (eE ++ eA) | [] => ROk end) = RHook l ->
+  l = eE ++ eA /\ nonnil eE || nonnil eA = true.
 Proof.
-  destruct eA as [|a eA]; [destruct eE as [|b eE]; [discriminate|]|]; intro H; inversion H; subst.
-  - split; [intros pe Hpe; exact Hpe|reflexivity].
-  - split; [intros pe Hpe; apply in_or_app; left; exact Hpe|apply orb_true_r].
+  destruct (eE ++ eA) as [|x r] eqn:E; [discriminate|]. intro H; inversion H; subst.
+  split; [reflexivity|].
+  destruct eE; [destruct eA; [discriminate|reflexivity]|reflexivity].
 Qed.
 
 Ltac find_hr :=
@@ -286,9 +286,9 @@ Proof.
   - exfalso.
     pose proof (enter_stage_spec _ _ _ _ _ _ _ _ EE) as (_ & _ & PE_ & _).
     pose proof (after_stage_spec _ _ _ _ _ _ _ _ _ EA) as (_ & _ & PA & _).
-    find_hr. pose proof (Hr1 _ Hin) as Hl.
+    find_hr. subst l. pose proof Hin as Hl.
     apply in_app_or in Hl. unfold errs_of in *. rewrite Forall_forall in PE_, PA.
-    destruct Hl as [Hl|Hl]; [destruct (PA _ Hl) as (f' & Hpe & _)|destruct (PE_ _ Hl) as (f' & Hpe & _)];
+    destruct Hl as [Hl|Hl]; [destruct (PE_ _ Hl) as (f' & Hpe & _)|destruct (PA _ Hl) as (f' & Hpe & _)];
       inversion Hpe; subst; destruct Hm; discriminate.
 Qed.
 
@@ -465,25 +465,26 @@ Qed.
 Lemma collects_body e ok : collects (body_trace e ok) = [].
 Proof. reflexivity. Qed.
 
+Lemma done_result_eq eA eE x :
+  In x (eE ++ eA) -> (match eE ++ eA with _ :: _ => RHook (eE ++ eA) | [] => ROk end) = RHook (eE ++ eA).
+Proof. destruct (eE ++ eA); [intros []|reflexivity]. Qed.
+
 (* C09: a failing critical call whose result is taken during a transition makes the transition
-   return a hook error; the error names the trigger and the call, except that an error raised at
-   enter_<state> is dropped when after_<event> raises one too (e.Cancel overwrites e.Err) *)
+   return a hook error that names the trigger and the call *)
 Lemma critical_failure_reported hooks orc e b s s' t r d i :
   transition hooks orc e b s = (s', t, r) -> dst_of e (e_st s) = Some d -> r <> RCrash ->
   In i (collects t) -> critfail i = true ->
-  exists l, r = RHook l /\
-    ((exists m f, In (PE m f) l /\ In i (wf_calls f)) \/
-     (exists f f', In (PE (MAfter e) f') l /\ In i (wf_calls f) /\ ~ In (PE (MEnter d) f) l)).
+  exists l m f, r = RHook l /\ In (PE m f) l /\ In i (wf_calls f).
 Proof.
   intros H Hd Hr Hin Hc. apply transition_outcome with (d := d) in H; [|exact Hd].
   inversion H as [| s1 tB pe t0 EB ET | s1 tB s2 tL pe t0 EB EL ET | s1 tB s2 tL s2' EB EL Hb Hs | s1 tB s2 tL s4 tE eE s5 tA eA EB EL Hb EE EA]; subst.
   - contradiction.
   - destruct (before_stage_crit _ _ _ _ _ _ _ _ EB Hin Hc) as (f & Hf & Hi). inversion Hf; subst.
-    eexists. split; [reflexivity|]. left. exists (MBefore e), f. split; [left; reflexivity|exact Hi].
+    do 3 eexists. split; [reflexivity|]. split; [left; reflexivity|exact Hi].
   - rewrite collects_app in Hin. apply in_app_or in Hin. destruct Hin as [Hin|Hin].
     + destruct (before_stage_crit _ _ _ _ _ _ _ _ EB Hin Hc) as (f & Hf & _). discriminate.
     + destruct (leave_stage_crit _ _ _ _ _ _ _ _ EL Hin Hc) as (f & Hf & Hi). inversion Hf; subst.
-      eexists. split; [reflexivity|]. left. exists (MLeave (e_st s)), f. split; [left; reflexivity|exact Hi].
+      do 3 eexists. split; [reflexivity|]. split; [left; reflexivity|exact Hi].
   - exfalso. rewrite !collects_app, collects_body, app_nil_r in Hin. apply in_app_or in Hin. destruct Hin as [Hin|Hin].
     + destruct (before_stage_crit _ _ _ _ _ _ _ _ EB Hin Hc) as (f & Hf & _). discriminate.
     + destruct (leave_stage_crit _ _ _ _ _ _ _ _ EL Hin Hc) as (f & Hf & _). discriminate.
@@ -494,16 +495,47 @@ Proof.
       [destruct (leave_stage_crit _ _ _ _ _ _ _ _ EL Hin Hc) as (f & Hf & _); discriminate|].
     apply in_app_or in Hin. destruct Hin as [Hin|Hin].
     + destruct (enter_stage_crit _ _ _ _ _ _ _ _ EE Hin Hc) as (f & Hf & Hi).
-      destruct eA as [|a eA].
-      * destruct eE as [|x eE]; [destruct Hf|]. eexists. split; [reflexivity|]. left. exists (MEnter d), f. auto.
-      * eexists. split; [reflexivity|].
-        pose proof (after_stage_spec _ _ _ _ _ _ _ _ _ EA) as (_ & _ & PA & _).
-        unfold errs_of in PA. rewrite Forall_forall in PA.
-        destruct (PA a (or_introl eq_refl)) as (f' & -> & _).
-        right. exists f, f'. split; [left; reflexivity|]. split; [exact Hi|].
-        intro Hx. destruct (PA _ Hx) as (f'' & Hpe & _). discriminate.
+      assert (Hx : In (PE (MEnter d) f) (eE ++ eA)) by (apply in_or_app; left; exact Hf).
+      rewrite (done_result_eq _ _ _ Hx). do 3 eexists. split; [reflexivity|]. split; [exact Hx|exact Hi].
     + destruct (after_stage_crit _ _ _ _ _ _ _ _ _ EA Hin Hc) as (f & Hf & Hi).
-      destruct eA as [|a eA]; [destruct Hf|]. eexists. split; [reflexivity|]. left. exists (MAfter e), f. auto.
+      assert (Hx : In (PE (MAfter e) f) (eE ++ eA)) by (apply in_or_app; right; exact Hf).
+      rewrite (done_result_eq _ _ _ Hx). do 3 eexists. split; [reflexivity|]. split; [exact Hx|exact Hi].
+Qed.
+
+Lemma stage_collect_moment m t i p : Forall (stage_ev m) t -> In (TCollect i p) t -> fst p = m.
+Proof. intros H Hin. rewrite Forall_forall in H. exact (H _ Hin). Qed.
+
+(* C09: in particular a critical failure at enter_<state> is in the returned error, whether or
+   not hooks of after_<event> fail too *)
+Lemma enter_reported hooks orc e b s s' t l d i p :
+  transition hooks orc e b s = (s', t, RHook l) -> dst_of e (e_st s) = Some d ->
+  In (TCollect i p) t -> critfail i = true -> fst p = MEnter d ->
+  exists f, In (PE (MEnter d) f) l /\ In i (wf_calls f).
+Proof.
+  intros H Hd Hin Hc Hp. apply transition_outcome with (d := d) in H; [|exact Hd].
+  inversion H as [| s1 tB pe t0 EB ET | s1 tB s2 tL pe t0 EB EL ET | s1 tB s2 tL s2' EB EL Hb Hs | s1 tB s2 tL s4 tE eE s5 tA eA EB EL Hb EE EA Hres]; subst.
+  - exfalso. pose proof (before_stage_spec _ _ _ _ _ _ _ _ EB) as (V & _).
+    rewrite (stage_collect_moment _ _ _ _ V Hin) in Hp. discriminate.
+  - exfalso. pose proof (before_stage_spec _ _ _ _ _ _ _ _ EB) as (VB & _).
+    pose proof (leave_stage_spec _ _ _ _ _ _ _ _ EL) as (VL & _).
+    apply in_app_or in Hin. destruct Hin as [Hin|Hin];
+      [rewrite (stage_collect_moment _ _ _ _ VB Hin) in Hp|rewrite (stage_collect_moment _ _ _ _ VL Hin) in Hp];
+      discriminate.
+  - pose proof (before_stage_spec _ _ _ _ _ _ _ _ EB) as (VB & _).
+    pose proof (leave_stage_spec _ _ _ _ _ _ _ _ EL) as (VL & _).
+    pose proof (after_stage_spec _ _ _ _ _ _ _ _ _ EA) as (VA & _).
+    find_hr.
+    apply in_app_or in Hin. destruct Hin as [Hin|Hin];
+      [rewrite (stage_collect_moment _ _ _ _ VB Hin) in Hp; discriminate|].
+    apply in_app_or in Hin. destruct Hin as [Hin|Hin];
+      [rewrite (stage_collect_moment _ _ _ _ VL Hin) in Hp; discriminate|].
+    apply in_app_or in Hin. destruct Hin as [Hin|Hin];
+      [cbn in Hin; destruct Hin as [Hin|[Hin|[Hin|[]]]]; discriminate|].
+    apply in_app_or in Hin. destruct Hin as [Hin|Hin];
+      [|rewrite (stage_collect_moment _ _ _ _ VA Hin) in Hp; discriminate].
+    destruct (enter_stage_crit _ _ _ _ _ _ _ _ EE (in_collects _ _ _ Hin) Hc) as (f & Hf & Hi).
+    exists f. split; [|exact Hi].
+    subst l. apply in_or_app. left. exact Hf.
 Qed.
 
 (* ------------------------------------------------------------------ non-critical failures are silent *)
@@ -519,7 +551,7 @@ Lemma do_weight_tasks hooks orc m w s s' t wf c :
   do_weight hooks orc m w s = (s', t, Some wf, c) -> Forall (crit_task hooks) (wf_tasks wf).
 Proof.
   unfold do_weight. fold (dw_tasks hooks m w).
-  destruct (run_tasks (e_stale s) (steal_of orc) (dw_tasks hooks m w) (or_touts orc)) as [errs|];
+  destruct (run_tasks (dw_tasks hooks m w) (or_touts orc)) as [errs|];
     [|intro H; inversion H].
   set (cf := filter (fun i => i_fail i && i_crit i) _).
   set (tf := filter (crit_of hooks) (filter (fun h => memN h errs) (dw_tasks hooks m w))).
@@ -688,163 +720,146 @@ Proof.
   intro Hk. rewrite Hw. apply oerr_names. exact Hk.
 Qed.
 
-(* ------------------------------------------------------------------ refutations *)
-
-(* "reported to the caller": the enter_<state> failure is lost when after_<event> fails too *)
-Definition enter_reported_statement : Prop :=
-  forall hooks orc e b s s' t l d i p,
-    transition hooks orc e b s = (s', t, RHook l) -> dst_of e (e_st s) = Some d ->
-    In (TCollect i p) t -> critfail i = true -> fst p = MEnter d ->
-    exists f, In (PE (MEnter d) f) l.
+(* ------------------------------------------------------------------ former refutation witnesses *)
+(* kept as regression examples: with the repaired code (model) they behave *)
 
 Definition wit_enter_hooks : list hook :=
   [mkHook 1 HCall (MEnter CONFIGURED, 0%Z) (MEnter CONFIGURED, 0%Z) true;
    mkHook 2 HCall (MAfter CONFIGURE, 0%Z) (MAfter CONFIGURE, 0%Z) true].
 
-Lemma enter_reported_refuted : ~ enter_reported_statement.
-Proof.
-  intro H.
-  destruct (H wit_enter_hooks (mkOracle 0 [1; 2] [] []) CONFIGURE BOk (est0 DEPLOYED)
-              (fst (fst (transition wit_enter_hooks (mkOracle 0 [1; 2] [] []) CONFIGURE BOk (est0 DEPLOYED))))
-              (snd (fst (transition wit_enter_hooks (mkOracle 0 [1; 2] [] []) CONFIGURE BOk (est0 DEPLOYED))))
-              [PE (MAfter CONFIGURE) (mkWfail [mkInst 2 0 true true] [] true)]
-              CONFIGURED (mkInst 1 0 true true) (MEnter CONFIGURED, 0%Z)) as (f & Hf).
-  - vm_compute. reflexivity.
-  - reflexivity.
-  - vm_compute. repeat (first [left; reflexivity | right]).
-  - reflexivity.
-  - reflexivity.
-  - destruct Hf as [Hf|[]]. discriminate.
-Qed.
+Lemma wit_enter_both_reported :
+  snd (transition wit_enter_hooks (mkOracle 0 [1; 2] [] []) CONFIGURE BOk (est0 DEPLOYED)) =
+  RHook [PE (MEnter CONFIGURED) (mkWfail [mkInst 1 0 true true] [] true);
+         PE (MAfter CONFIGURE) (mkWfail [mkInst 2 0 true true] [] true)].
+Proof. vm_compute. reflexivity. Qed.
 
-(* "without harming the core" *)
-Definition no_crash_statement : Prop :=
-  forall hooks ops init, model_crashed (snd (run_ops hooks 0 ops (est0 init))) = false.
-
-(* C09-b: a hook task times out, another one of the same weight is still awaited, the first one
-   terminates after all: hookTimers[tid].Stop() on a nil timer *)
 Definition wit_late_hooks : list hook :=
   [mkHook 1 HTask (MBefore CONFIGURE, 0%Z) (MBefore CONFIGURE, 0%Z) true;
    mkHook 2 HTask (MBefore CONFIGURE, 0%Z) (MBefore CONFIGURE, 0%Z) false].
 Definition wit_late_ops : list op :=
   [mkOp (OEvent CONFIGURE) BOk [] [(1, TLate); (2, TOkSlow)] []].
-
-Lemma no_crash_refuted : ~ no_crash_statement.
-Proof.
-  intro H. specialize (H wit_late_hooks wit_late_ops DEPLOYED). vm_compute in H. discriminate.
-Qed.
-
-(* C09-d: the trigger command of a group of hook tasks fails; the collector goroutine of that
-   group stays behind and later receives the termination event of its own hook *)
 Definition wit_stale_hooks : list hook :=
   [mkHook 1 HTask (MBefore CONFIGURE, 0%Z) (MBefore CONFIGURE, 0%Z) false].
 Definition wit_stale_ops : list op :=
   [mkOp (OEvent CONFIGURE) BOk [] [(1, TTrigFail)] []; mkOp (OEvent RESET) BOk [] [] [];
-   mkOp (OEvent CONFIGURE) BOk [] [] [(1, 1)]].
+   mkOp (OEvent CONFIGURE) BOk [] [] []].
 
-Lemma no_crash_refuted_stale : model_crashed (snd (run_ops wit_stale_hooks 0 wit_stale_ops (est0 DEPLOYED))) = true.
+(* the late termination is ignored: the timed-out critical hook cancels CONFIGURE, nothing dies *)
+Lemma wit_late_cancelled :
+  map (fun x => snd (fst x)) (snd (run_ops wit_late_hooks 0 wit_late_ops (est0 DEPLOYED))) =
+  [RHook [PE (MBefore CONFIGURE) (mkWfail [] [1] true)]].
 Proof. vm_compute. reflexivity. Qed.
 
-(* ------------------------------------------------------------------ no crash without hook tasks *)
+(* the failed trigger leaves nothing behind: the next CONFIGURE runs the hook normally *)
+Lemma wit_stale_clean :
+  map (fun x => snd (fst x)) (snd (run_ops wit_stale_hooks 0 wit_stale_ops (est0 DEPLOYED))) = [ROk; ROk; ROk].
+Proof. vm_compute. reflexivity. Qed.
 
-Definition calls_only (hooks : list hook) : Prop := forall h, In h hooks -> is_call h = true.
+(* ------------------------------------------------------------------ no crash *)
 
-Lemma dw_tasks_nil hooks m w : calls_only hooks -> dw_tasks hooks m w = [].
+Lemma hook_loop_nocrash sched : forall group timers errs succ,
+  hook_loop group timers errs succ sched <> LCrash.
 Proof.
-  intro Hc. unfold dw_tasks.
-  assert (E : filter is_task (hooks_at hooks (m, w)) = []).
-  { destruct (filter is_task (hooks_at hooks (m, w))) as [|h l] eqn:Ef; [reflexivity|].
-    assert (Hh : In h (filter is_task (hooks_at hooks (m, w)))) by (rewrite Ef; left; reflexivity).
-    apply filter_In in Hh. destruct Hh as [Hh Ht]. apply hooks_at_in in Hh.
-    unfold is_task in Ht. rewrite (Hc h (proj1 Hh)) in Ht. discriminate. }
-  rewrite E. reflexivity.
+  induction sched as [|ev r IH]; intros group timers errs succ; cbn [hook_loop]; [discriminate|].
+  destruct ev as [h|h nz vol].
+  - destruct (memN h group && memN h timers); [|apply IH].
+    destruct (remN h timers); [discriminate|apply IH].
+  - destruct (negb (memN h group)); [apply IH|].
+    destruct (negb (memN h timers)); [apply IH|].
+    destruct (remN h timers); [discriminate|apply IH].
+Qed.
+
+Lemma run_tasks_nocrash group touts : run_tasks group touts <> LCrash.
+Proof.
+  unfold run_tasks. destruct group; [discriminate|].
+  destruct (trig_fails _ touts); [discriminate|apply hook_loop_nocrash].
 Qed.
 
 Lemma do_weight_nocrash hooks orc m w s s' t f c :
-  calls_only hooks -> do_weight hooks orc m w s = (s', t, f, c) -> c = false.
+  do_weight hooks orc m w s = (s', t, f, c) -> c = false.
 Proof.
-  intro Hc. unfold do_weight. fold (dw_tasks hooks m w). rewrite (dw_tasks_nil hooks m w Hc).
-  cbn [run_tasks]. cbv beta iota.
-  destruct (filter (fun i => i_fail i && i_crit i) _); cbn; intro H; inversion H; reflexivity.
+  unfold do_weight.
+  destruct (run_tasks (map h_id (filter is_task (hooks_at hooks (m, w)))) (or_touts orc)) as [errs|] eqn:E;
+    [|exfalso; exact (run_tasks_nocrash _ _ E)].
+  destruct (filter (fun i => i_fail i && i_crit i) _);
+    [destruct (filter (crit_of hooks) _)|]; intro H; inversion H; reflexivity.
 Qed.
 
-Lemma pass_loop_nocrash hooks orc m ws : calls_only hooks -> forall s s' t p,
+Lemma pass_loop_nocrash hooks orc m ws : forall s s' t p,
   pass_loop hooks orc m ws s = (s', t, p) -> p <> PCrash.
 Proof.
-  intro Hc. induction ws as [|w ws IH]; intros s s' t p; cbn.
+  induction ws as [|w ws IH]; intros s s' t p; cbn.
   - intro H; inversion H. discriminate.
   - destruct (do_weight hooks orc m w s) as [[[s1 t1] f] c] eqn:E.
-    rewrite (do_weight_nocrash _ _ _ _ _ _ _ _ _ Hc E).
+    rewrite (do_weight_nocrash _ _ _ _ _ _ _ _ _ E).
     destruct f as [wf|]; [intro H; inversion H; discriminate|].
     destruct (pass_loop hooks orc m ws s1) as [[s2 t2] p2] eqn:E2.
     intro H; inversion H; subst. eapply IH; exact E2.
 Qed.
 
 Lemma run_pass_nocrash hooks orc m pred s s' t p :
-  calls_only hooks -> run_pass hooks orc m pred s = (s', t, p) -> is_crash p = false.
+  run_pass hooks orc m pred s = (s', t, p) -> is_crash p = false.
 Proof.
-  intros Hc H. apply (pass_loop_nocrash _ _ _ _ Hc) in H. destruct p; try reflexivity. contradiction.
+  intros H. apply pass_loop_nocrash in H. destruct p; try reflexivity. contradiction.
 Qed.
 
 Lemma transition_nocrash hooks orc e b s s' t r :
-  calls_only hooks -> transition hooks orc e b s = (s', t, r) -> r <> RCrash.
+  transition hooks orc e b s = (s', t, r) -> r <> RCrash.
 Proof.
-  intros Hc. unfold transition. destruct (dst_of e (e_st s)) as [d|]; [|intro H; inversion H; discriminate].
+  unfold transition. destruct (dst_of e (e_st s)) as [d|]; [|intro H; inversion H; discriminate].
   unfold before_stage, leave_stage, enter_stage, after_stage.
   destruct (run_pass hooks orc (MBefore e) wneg s) as [[s1 t1] p1] eqn:E1.
-  pose proof (run_pass_nocrash _ _ _ _ _ _ _ _ Hc E1) as C1.
+  pose proof (run_pass_nocrash _ _ _ _ _ _ _ _ E1) as C1.
   destruct p1; [|intro H; inversion H; discriminate|discriminate].
   destruct (builtin_before e s1) as [s2 tb].
   destruct (run_pass hooks orc (MBefore e) wnonneg s2) as [[s3 t3] p3] eqn:E3.
-  pose proof (run_pass_nocrash _ _ _ _ _ _ _ _ Hc E3) as C3.
+  pose proof (run_pass_nocrash _ _ _ _ _ _ _ _ E3) as C3.
   destruct p3; [|intro H; inversion H; discriminate|discriminate].
   destruct (run_pass hooks orc (MLeave (e_st s)) wneg s3) as [[s4 t4] p4] eqn:E4.
-  pose proof (run_pass_nocrash _ _ _ _ _ _ _ _ Hc E4) as C4.
+  pose proof (run_pass_nocrash _ _ _ _ _ _ _ _ E4) as C4.
   destruct p4; [|intro H; inversion H; discriminate|discriminate].
   destruct (run_pass hooks orc (MLeave (e_st s)) wnonneg (builtin_leave (e_st s) s4)) as [[s5 t5] p5] eqn:E5.
-  pose proof (run_pass_nocrash _ _ _ _ _ _ _ _ Hc E5) as C5.
+  pose proof (run_pass_nocrash _ _ _ _ _ _ _ _ E5) as C5.
   destruct p5; [|intro H; inversion H; discriminate|discriminate].
   destruct b; [|intro H; inversion H; discriminate..].
   destruct (run_pass hooks orc (MEnter d) wneg (set_st d s5)) as [[s6 t6] p6] eqn:E6.
-  rewrite (run_pass_nocrash _ _ _ _ _ _ _ _ Hc E6).
+  rewrite (run_pass_nocrash _ _ _ _ _ _ _ _ E6).
   destruct (run_pass hooks orc (MEnter d) wnonneg s6) as [[s7 t7] p7] eqn:E7.
-  rewrite (run_pass_nocrash _ _ _ _ _ _ _ _ Hc E7).
+  rewrite (run_pass_nocrash _ _ _ _ _ _ _ _ E7).
   destruct (run_pass hooks orc (MAfter e) wneg s7) as [[s8 t8] p8] eqn:E8.
-  rewrite (run_pass_nocrash _ _ _ _ _ _ _ _ Hc E8).
+  rewrite (run_pass_nocrash _ _ _ _ _ _ _ _ E8).
   destruct (builtin_after e _ s8) as [s9 ta].
   destruct (run_pass hooks orc (MAfter e) wnonneg s9) as [[s10 t10] p10] eqn:E10.
-  rewrite (run_pass_nocrash _ _ _ _ _ _ _ _ Hc E10).
+  rewrite (run_pass_nocrash _ _ _ _ _ _ _ _ E10).
   intro H; inversion H.
-  destruct (perrs (MAfter e) p8 ++ perrs (MAfter e) p10); [|discriminate].
-  destruct (perrs (MEnter d) p6 ++ perrs (MEnter d) p7); discriminate.
+  destruct ((perrs (MEnter d) p6 ++ perrs (MEnter d) p7) ++ perrs (MAfter e) p8 ++ perrs (MAfter e) p10); discriminate.
 Qed.
 
 Lemma run_op_nocrash hooks i o s s' t r :
-  calls_only hooks -> run_op hooks i o s = (s', t, r) -> r <> RCrash.
+  run_op hooks i o s = (s', t, r) -> r <> RCrash.
 Proof.
-  intro Hc. unfold run_op. destruct (o_kind o).
-  - apply transition_nocrash. exact Hc.
+  unfold run_op. destruct (o_kind o).
+  - apply transition_nocrash.
   - intro H; inversion H. discriminate.
   - destruct (transition hooks (oracle_of i o) GO_ERROR (o_body o) s) as [[s1 t1] r1] eqn:E.
-    apply (transition_nocrash _ _ _ _ _ _ _ _ Hc) in E.
+    apply transition_nocrash in E.
     destruct r1; intro H; inversion H; subst; try discriminate. exact E.
   - unfold leave_all. destruct (run_pass hooks (oracle_of i o) (MLeave (e_st s)) wall s) as [[s1 t1] p] eqn:E.
-    pose proof (run_pass_nocrash _ _ _ _ _ _ _ _ Hc E) as C.
+    pose proof (run_pass_nocrash _ _ _ _ _ _ _ _ E) as C.
     destruct p; intro H; inversion H; discriminate.
   - unfold leave_all. destruct (run_pass hooks (oracle_of i o) (MLeave (e_st s)) wall s) as [[s1 t1] p] eqn:E.
-    rewrite (run_pass_nocrash _ _ _ _ _ _ _ _ Hc E).
+    rewrite (run_pass_nocrash _ _ _ _ _ _ _ _ E).
     destruct (teardown_stamps s1) as [s2 ts]. intro H; inversion H. discriminate.
 Qed.
 
-(* C09, "without harming the core", the part that holds: without hook tasks no history crashes
-   the core, whatever fails (the two crashes found both need hook tasks: a termination after the
-   time-out, or a failed trigger command) *)
-Lemma no_crash_calls_only hooks : calls_only hooks -> forall ops i s,
+(* C09, "without harming the core": no history crashes the core, whatever fails, with any number
+   of calls failing at one point, hook tasks timing out, terminating late or failing to trigger *)
+Lemma no_crash hooks : forall ops i s,
   model_crashed (snd (run_ops hooks i ops s)) = false.
 Proof.
-  intro Hc. induction ops as [|o ops IH]; intros i s; cbn; [reflexivity|].
+  induction ops as [|o ops IH]; intros i s; cbn; [reflexivity|].
   destruct (run_op hooks i o s) as [[s1 t] res] eqn:E.
-  pose proof (run_op_nocrash _ _ _ _ _ _ _ Hc E) as Hr.
+  pose proof (run_op_nocrash _ _ _ _ _ _ _ E) as Hr.
   destruct res; try contradiction;
     (specialize (IH (N.succ i) s1); destruct (run_ops hooks (N.succ i) ops s1) as [s2 l2]; cbn in *; exact IH).
 Qed.
